@@ -30,12 +30,12 @@ class FA:
         self._facts = {}
 
     # ------------------------------------------------------------------- facts
-    def facts(self, assume=(), await_kills=False):
-        key = (tuple(assume), await_kills)
+    def facts(self, assume=(), await_kills=False, tests_only=False):
+        key = (tuple(assume), await_kills, tests_only)
         if key not in self._facts:
             self._facts[key] = factsmod.compute(
                 self.cfg, assume=assume, call_kills=self._call_kills,
-                expand=lambda e, n: self.rd.expand(e, n), await_kills=await_kills)
+                expand=lambda e, n: self.rd.expand(e, n), await_kills=await_kills, tests_only=tests_only)
         return self._facts[key]
 
     def _call_kills(self, call):
